@@ -8,7 +8,7 @@ import time
 import concurrent.futures as cf
 
 from .extract import AnchorError
-from .gen import generate
+from .gen import generate, Obligation
 from .verus import run_verus, map_failures
 from .lexer import norm
 
